@@ -118,7 +118,18 @@ def h_iterate(ctx, case):
         ctx.check(int(it.n_rows) == nr, 'n_rows == stored row count')
         if what == 'iter':
             seen = []
+            first = True
             for blk, r0, r1 in it:
+                if first and case.get('interleave'):
+                    # random access in the middle of an iteration must
+                    # not disturb it
+                    a = ctx.choice('g0', nr)
+                    b = a + 1 + ctx.choice('glen', nr - a)
+                    blk2, _, _ = it.get_chunk(a, b)
+                    check_block(ctx, blk2, dense, list(range(a, b)),
+                                'get_chunk during iteration')
+                    it.get_batch([nr - 1])
+                first = False
                 r0, r1 = int(r0), int(r1)
                 ctx.check(r0 == len(seen) and r0 < r1 <= nr
                           and r1 - r0 <= int(chunk),
@@ -227,6 +238,10 @@ HARNESSES = [
                {'shape': [1, 2], 'enc': 'csc', 'what': 'iter'},
                {'shape': [2, 2], 'enc': 'csr', 'layer': 'raw',
                 'what': 'iter', 'keep_open': False},
+               {'shape': [3, 1], 'enc': 'csr', 'what': 'iter',
+                'interleave': True},
+               {'shape': [3, 1], 'enc': 'dense', 'what': 'iter',
+                'interleave': True},
                {'shape': [3, 2], 'enc': 'csr', 'what': 'batch'},
                {'shape': [3, 2], 'enc': 'dense', 'what': 'batch'},
                {'shape': [2, 2], 'enc': 'csc', 'what': 'batch'},
